@@ -33,6 +33,7 @@ int vnadata_set_z0_vector(vnadata_t *vdp,
 	const double complex *z0_vector)
 {
     vnadata_internal_t *vdip;
+    double complex *z0_copy = NULL;
     int ports;
 
     if (vdp == NULL) {
@@ -46,7 +47,23 @@ int vnadata_set_z0_vector(vnadata_t *vdp,
     }
     ports = MAX(vdp->vd_rows, vdp->vd_columns);
     if (vdip->vdi_flags & VF_PER_F_Z0) {
+	/*
+	 * The conversion frees the per-frequency z0 vectors, which
+	 * is what vnadata_get_fz0_vector returns: take the caller's
+	 * values first in case z0_vector points into one of them.
+	 */
+	if (ports > 0) {
+	    if ((z0_copy = malloc(ports * sizeof(double complex))) == NULL) {
+		_vnadata_error(vdip, VNAERR_SYSTEM,
+			"malloc: %s", strerror(errno));
+		return -1;
+	    }
+	    (void)memcpy((void *)z0_copy, (void *)z0_vector,
+		    ports * sizeof(double complex));
+	    z0_vector = z0_copy;
+	}
 	if (_vnadata_convert_to_z0(vdip) == -1) {
+	    free((void *)z0_copy);
 	    return -1;
 	}
     }
@@ -54,5 +71,6 @@ int vnadata_set_z0_vector(vnadata_t *vdp,
 	(void)memcpy((void *)vdip->vdi_z0_vector, (void *)z0_vector,
 		ports * sizeof(double complex));
     }
+    free((void *)z0_copy);
     return 0;
 }
